@@ -9,6 +9,8 @@ strategy: a power whose exponent grows with the retry number cannot escape as Ov
 documented max; (R3) determinism per seed: randomness only through random.Random(seed) chosen by
 `seed is not None`, every draw through that generator, combinators and the policy forward seed,
 and the reducer derives the seed only from (run_id, step, failures).
+Also (R2) bounds on the floor/cap grid (floors below, at, above the cap): finite, never below max(0, min), at most max when min <= max;
+the structural upper-clamp rule falls back on that evaluation for shapes it does not know (conditional expressions).
 Not decided: numeric values of delays.
 """
 
@@ -86,6 +88,79 @@ def _combinator_hooks(mrp, menv: dict) -> dict:
     hooks["isinstance"] = lambda o_, t_: isinstance(o_, Record) and (getattr(t_, "__name__", None) == o_._cls or (isinstance(t_, tuple) and any(getattr(x_, "__name__", None) == o_._cls for x_ in t_)))
     return hooks
 
+
+
+def floor_cap_grid(mrp, genv, hooks0, _TD, floor_wins=()) -> dict[str, tuple[ast.AST, str, int]]:
+    """{strategy class: (its __call__, first counter-example or "", evaluations)} for the wait strategies whose constructor takes
+    a `max` (with `min`: floor below, at and above the cap): object built by interpreting __init__, __call__ evaluated for retry numbers 0..40, random draws pinned to
+    either end of their interval (`floor_wins`: the classes clamping an exponential term, for which tenacity applies the floor last);
+    also wait_incrementing-like strategies (`start`, `increment`, `max`) with a negative increment."""
+    import math as _math
+    out: dict[str, tuple[ast.AST, str, int]] = {}
+    for cname, cdef in mrp.classes.items():
+        init = mrp.functions.get(f"{cname}.__init__")
+        callf = mrp.functions.get(f"{cname}.__call__")
+        if init is None or callf is None:
+            continue
+        ip = [a.arg for a in init.args.posonlyargs + init.args.args + init.args.kwonlyargs][1:]
+        if "max" not in ip:
+            continue
+        if len(callf.args.args) < 2 or callf.args.args[1].arg != "attempts":
+            continue
+        if "min" in ip:
+            points = [{"min": lo, "max": hi} for lo, hi in ((0, 60.0), (5.0, 60.0), (2.0, 2.0), (1.5, 0.05), (3, 1))]
+        elif {"start", "increment"} <= set(ip):
+            points = [{"start": st, "increment": inc, "max": hi} for st, inc, hi in ((1.0, 2.0, 10.0), (5.0, -2.0, 10.0), (0.0, 100.0, 0.0), (20.0, 1.0, 10.0))]
+        else:
+            points = [{"max": hi} for hi in (60.0, 2.0, 0.05)]
+        bad, n = "", 0
+        try:
+            for pt in points:
+                for factor, base in ((0.01, 2.0), (1.0, 2.0), (1.0, 3)):
+                    for end in (0, 1):
+                        rng = Record("Rng")
+                        rng.__dict__["uniform"] = lambda a_, b_, _e=end: (b_ if _e else a_)
+                        rng.__dict__["random"] = lambda _e=end: (1.0 if _e else 0.0)
+                        ghooks = dict(hooks0)
+                        ghooks["random.Random"] = lambda *a_, **k_: rng
+                        ghooks["random.uniform"] = rng.__dict__["uniform"]
+                        ghooks["isinstance"] = lambda o_, t_: (t_ is _TD and False) or (isinstance(t_, type) and t_ is not _TD and isinstance(o_, t_))
+                        rng.__dict__["Random"] = lambda *a_, _r=rng, **k_: _r
+                        genv = {**genv, "random": rng}      # the module object itself used as the generator (`rng = random`)
+                        kw = dict(pt)
+                        for p_ in ip:
+                            if p_ in ("multiplier", "initial"):
+                                kw[p_] = factor
+                            elif p_ == "exp_base":
+                                kw[p_] = base
+                            elif p_ == "jitter":
+                                kw[p_] = 0.5
+                        obj = Record(cname)
+                        Interp(genv, ghooks).call_function(init, {"self": obj, **kw})
+                        lo, hi = float(kw.get("min", 0.0)), float(kw["max"])
+                        for k in (0, 1, 2, 3, 7, 12, 40):
+                            n += 1
+                            where = f"{cname}({', '.join(f'{a}={v!r}' for a, v in kw.items())})({k})"
+                            try:
+                                v = Interp(genv, ghooks).call_function(callf, {"self": obj, "attempts": k, "seed": 7})
+                            except Raised as r:
+                                bad = bad or f"{where} raises {r.name}"
+                                continue
+                            if not isinstance(v, (int, float)) or isinstance(v, bool) or _math.isnan(v) or _math.isinf(v):
+                                bad = bad or f"{where} = {v!r}: not a finite delay"
+                            elif lo > hi and cname not in floor_wins:
+                                # a plain draw from an inverted interval documents nothing beyond the interval's two ends
+                                if v < max(0.0, min(lo, hi)) - 1e-12 or v > max(lo, hi) + 1e-9:
+                                    bad = bad or f"{where} = {v!r} lies outside both ends of its interval"
+                            elif v < max(0.0, lo) - 1e-12:
+                                bad = bad or (f"{where} = {v!r} is below the documented floor max(0, min) = {max(0.0, lo)!r}" +
+                                              (" (floor above the cap: the floor is applied last and wins, as in tenacity)" if lo > hi else ""))
+                            elif lo <= hi and v > hi + 1e-9:
+                                bad = bad or f"{where} = {v!r} exceeds the cap max = {hi!r}"
+        except Unsupported as e:
+            raise AnchorError(f"C07.R2: cannot evaluate {cname} on the floor/cap grid: {e}")
+        out[cname] = (callf, bad, n)
+    return out
 
 def run(chk) -> None:
     repo = chk.repo
@@ -229,6 +304,8 @@ def run(chk) -> None:
     classes = [r.split(":")[1] for r in repo.subclasses(f"{RP}:_WaitStrategyBase") if r.startswith(RP + ":")]
     chk.floor("C07.R2", "wait strategy classes", len(classes), 8)
     pows = 0
+    clamp_obs: list[tuple[str, ast.AST, bool]] = []
+    evaluated_clean: set[str] = set()
     for cname in classes:
         call = mrp.functions.get(f"{cname}.__call__")
         if call is None:
@@ -272,8 +349,7 @@ def run(chk) -> None:
         if has_max:
             rets = [r.value for r in ast.walk(call) if isinstance(r, ast.Return) and r.value is not None]
             allok = bool(rets) and all(_bounded_by_max(expand(r, r), mrp) for r in rets)
-            chk.ob("C07.R2", f"{cname}: every returned delay passes through the clamp by self.max", allok, m=mrp, node=call, fn=call, instance=f"upper-clamp:{cname}",
-                   reason="a returned expression is not bounded above by self.max (min(…, self.max) / uniform(…, clamped))")
+            clamp_obs.append((cname, call, allok))
     chk.floor("C07.R2", "exponential terms in wait strategies", pows, 3)
     # whole-object evaluation on a grid: the strategy is built by interpreting its own __init__ and called for small, large and
     # overflowing retry numbers, with float and int bases; random draws are pinned to either end of their interval
@@ -350,6 +426,21 @@ def run(chk) -> None:
         chk.ob("C07.R2", f"{cname}: for float and int bases and retry numbers 0..5000 the delay is finite, within [0, max], non-decreasing" + ("" if randomised else ", and equals min(max, multiplier * exp_base**k)"),
                not bad_g, m=mrp, node=callf, fn=callf, instance=f"grid:{cname}", reason=bad_g)
 
+    # floor / cap precedence on a parameter grid: every strategy that has a floor (`min`) and a cap (`max`) is built by its own
+    # __init__ and evaluated with the floor below, equal to and *above* the cap (tenacity: the floor is applied last and wins)
+    fc = floor_cap_grid(mrp, genv, hooks0, _TD, floor_wins=set(exp_classes))
+    chk.floor("C07.R2", "wait strategies with a floor and a cap evaluated on the floor/cap grid", len(fc), 2)
+    for cname, (callf, bad_fc, n_fc) in sorted(fc.items()):
+        cases += n_fc
+        chk.ob("C07.R2", f"{cname}: for floors below, at and above the cap the delay is finite, never below max(0, min), and at most max whenever min <= max",
+               not bad_fc, m=mrp, node=callf, fn=callf, instance=f"bounds:{cname}", reason=bad_fc)
+        if not bad_fc:
+            evaluated_clean.add(cname)
+    # the cap: decided structurally (the returned expression passes through min(…, self.max)); a shape the structural rule does not
+    # know (conditional expression, comparison chain) is decided by the grid evaluation of that strategy instead
+    for cname, call, allok in clamp_obs:
+        chk.ob("C07.R2", f"{cname}: every returned delay is capped by self.max (structurally, or on the whole floor/cap grid)", allok or cname in evaluated_clean, m=mrp, node=call, fn=call, instance=f"upper-clamp:{cname}",
+               reason="a returned expression is not bounded above by self.max (min(…, self.max) / uniform(…, clamped)) and the grid evaluation does not confirm the cap either")
     # ---------------------------------------------------------------- R3 determinism per seed
     DRAW = ("uniform", "random", "randint", "gauss", "choice", "expovariate", "triangular", "randrange", "betavariate", "normalvariate")
     from ..index import enclosing_function as _encl, qualname_of as _qn
@@ -504,4 +595,16 @@ TWINS = [
     Twin("benign: any as loop", RP_REL, "        return any(retry(error) for retry in self.retries)", "        for r in self.retries:\n            if r(error):\n                return True\n        return False", None),
     Twin("benign: sum as loop", RP_REL, "        return sum(strategy(attempts, seed=seed) for strategy in self.strategies)", "        total = 0.0\n        for strategy in self.strategies:\n            total += strategy(attempts, seed=seed)\n        return total", None),
     Twin("benign: clamp via local", RP_REL, "        return max(0.0, min(result, self.max))", "        capped = min(result, self.max)\n        return max(0.0, capped)", None),
+]
+
+_WE_OLD = """        return max(
+            max(0.0, self.min),
+            min(_exp_term(self.multiplier, self.exp_base, attempts), self.max),
+        )
+"""
+TWINS += [
+    Twin("wait_exponential: cap applied last, so a floor above the cap is ignored", "packages/llama-index-workflows/src/workflows/retry_policy.py", _WE_OLD,
+         "        return min(max(_exp_term(self.multiplier, self.exp_base, attempts), max(0.0, self.min)), self.max)\n", "C07.R2"),
+    Twin("benign: wait_exponential clamp written with locals and a conditional", "packages/llama-index-workflows/src/workflows/retry_policy.py", _WE_OLD,
+         "        capped = min(_exp_term(self.multiplier, self.exp_base, attempts), self.max)\n        floor = max(0.0, self.min)\n        return floor if floor > capped else capped\n", None),
 ]
